@@ -2,6 +2,7 @@
 import bip_utils as B
 from bip_utils.addr import *  # noqa
 from harness.canon import hx, tx, unhx, untx
+from harness.canon import conf_params
 from bip_utils import (Secp256k1PrivateKey, Nist256p1PrivateKey, Ed25519PrivateKey, Ed25519Blake2bPrivateKey,
                        Ed25519MoneroPrivateKey, Secp256k1PublicKey, Nist256p1PublicKey, Ed25519PublicKey,
                        Ed25519Blake2bPublicKey, Ed25519MoneroPublicKey, Base58Alphabets, P2PKHPubKeyModes,
@@ -98,7 +99,7 @@ def coin_params():
         c = getattr(CoinsConf, name)
         if not isinstance(c, CoinConf):
             continue
-        p = c.m_params
+        p = conf_params(c)
         for key, dst in (("p2pkh_net_ver", "p2pkh_net_ver"), ("p2sh_net_ver", "p2sh_net_ver"), ("p2wpkh_hrp", "p2wpkh_hrp"),
                          ("p2tr_hrp", "p2tr_hrp"), ("addr_hrp", "addr_hrp"), ("addr_ss58_format", "ss58_format"), ("addr_ver", "neo_ver"),
                          ("addr_net_ver", "xmr_net_ver"), ("subaddr_net_ver", "xmr_net_ver"), ("addr_int_net_ver", "xmr_int_net_ver")):
